@@ -109,9 +109,21 @@ class Ctx:
         self.deg = rng.chance(0.35)
         self.R = rng.rot() if self.deg else rng.quat_rot()
         self.dirs = []
+        self.points = []
         self.last_start = None
 
     def pos(self):
+        r = self.rng
+        if self.deg and self.dirs and self.points and r.chance(0.3):
+            # on the line / in the plane spanned by what was generated before: coincident, contained, touching placements
+            q = self.points[-1] + self.dirs[-1] * (self.scale * r.choice([0.0, 1.0, -2.0, r.gauss(0, 1)]))
+            self.points.append(q)
+            return q
+        q = self._pos()
+        self.points.append(q)
+        return q
+
+    def _pos(self):
         r = self.rng
         if self.deg and r.chance(0.4):
             return self.anchor + self.R @ (np.array([float(r.randint(-2, 2)) for _ in range(3)]) * self.scale * 0.5)
@@ -261,6 +273,7 @@ class _one:
         self.rng = R1()
 
     pos = Ctx.pos
+    _pos = Ctx._pos
     size = Ctx.size
 
 
